@@ -36,9 +36,14 @@ TEnd == /\ l <= Len(Ev) /\ Ev[l].ev = "end"
         /\ st = Ev[l].st /\ net = <<>> /\ (st = "closed" \/ rq = <<>>)
         /\ l' = l + 1 /\ UNCHANGED <<vars, tid>>
 
+\* 6 s of silence pass (the reader's 5 s poll expires at least once): the logged buffer length shows nothing was dropped
+TTimeout == /\ l <= Len(Ev) /\ Ev[l].ev = "timeout"
+            /\ RdPollTimeout /\ Len(rbuf) = Ev[l].n
+            /\ l' = l + 1 /\ UNCHANGED tid
+
 TSilent == RdDequeue /\ UNCHANGED <<tid, l>>
 
-TNext == TRecv \/ TIter \/ TEnd \/ TSilent
+TNext == TRecv \/ TIter \/ TEnd \/ TTimeout \/ TSilent
 TSpec == TInit /\ [][TNext]_tvars
 
 ASSUME TLCSet(1, [i \in 1..NT |-> 0])
